@@ -200,7 +200,11 @@ def finish(pid, tier, seed, level, results, t0, checker_cmd, trusted_base, assum
             if len(samples) < 12:
                 samples.append(o.as_dict(r.id))
     all_assump = list(dict.fromkeys(list(assumptions) + [a for r in results for a in r.assumptions]))
+    seen_kf = set()
     for uid, o, k in known_hits:
+        if (uid, o.name) in seen_kf:
+            continue
+        seen_kf.add((uid, o.name))
         print("KNOWN-FINDING: property=%s %s (unit %s, obligation %s)" % (pid, k.get("what", ""), uid, o.name))
     for uid, why in undecided:
         print("UNDECIDED property=%s unit=%s reason=%s" % (pid, uid, why.replace("\n", " ")[:300]))
